@@ -591,11 +591,16 @@ int main(void)
 			}
 		}
 		else if (!strcmp(op, "swrite") && drv_nw == 6) {
-			char detail[32];
+			char detail[64];
 			if (!wmode[h] || drv_parse_nat(drv_w[3], &a) || drv_parse_nat(drv_w[4], &b) || !b || a > 64 || b > 4096
 			    || data_arg(drv_w[5], h, &dat, &dlen, &isnull) || dlen != a * b) BAD;
 			ssize_t r = mpt_slice_write(&H[h], a, isnull ? 0 : dat, b);
-			snprintf(detail, sizeof(detail), "n%zd", r);
+			/* blocks written, and the bytes of the handle's array that lie behind the slice window afterwards */
+			{
+				const MPT_STRUCT(buffer) *wb = H[h]._a._buf;
+				size_t wend = H[h]._off + H[h]._len, wused = wb ? wb->_used : 0;
+				snprintf(detail, sizeof(detail), "n%zdt%zu", r, wused > wend ? wused - wend : (size_t) 0);
+			}
 			result_int(r, detail);
 		}
 		else BAD;
